@@ -570,6 +570,9 @@ func c05Scenarios(thorough bool) []*scenario {
 	// the 10 s orphan check must abandon it, and a later round continues on the new best chain
 	add(syncConfig{length: 3, start: 1, script: map[string][]string{"a2": {"silent", "silent"}}, events: []string{"reorg"}, forkAt: 1, forkLen: 3}, 0)
 	add(syncConfig{length: 4, start: 1, processed: []int{1}, script: map[string][]string{"a3": {"silent", "silent"}}, events: []string{"reorg"}, forkAt: 2, forkLen: 3}, 0)
+	// the same with the reorganisation arriving 17 s into the request - after the first 10 s check
+	// found the block still on the best chain - and a source that never answers, however often asked
+	add(syncConfig{length: 3, start: 1, script: map[string][]string{"a2": {"silent*"}}, events: []string{"reorg-later"}, forkAt: 1, forkLen: 3}, 0)
 	// a transient error of the transaction processor while a block is being confirmed: the block is
 	// asked for again, and is not on record as processed in the meantime
 	add(syncConfig{length: 3, start: 1, confirmErr: []int{2}}, 0)
